@@ -117,7 +117,7 @@ def Safe (vals : Vals) : Op → Prop
     (Gen.SBufConsts.finishAssignsSize = true → n ≠ 0) ∧
     (Gen.SBufConsts.rawSpaceDiffWraps = true → (Spec.get vals i).length + n < npos)
   | .appendBytes i b => (Spec.get vals i).length + b.length < npos
-  | .assignBytes _ b => b.length < npos
+  | .assignBytes _ b => b.length ≤ maxSize      -- (a longer foreign area makes assign() throw after it has cleared the object)
   | .reserveSpace _ n => n < W
   | .reserveCapacity _ n => n < W
   | .reserve _ ideal mn mx _ => ideal < W ∧ mn < W ∧ mx < W
